@@ -20,6 +20,7 @@ EXTENDS Integers, FiniteSets, Sequences, TLC, Json
 CONSTANTS MaxArr, MaxWrap, MaxField, MaxOps,
           LockClearsNumpyFlag,
           AllowEarlierViews,        \* writable aliases made BEFORE construction (outside C07's quantifier)
+          Flavours,                 \* subset of NewKinds that NewArray may produce (the model state does not depend on it)
           KeepHist,                 \* "none" (model checking) | "last" (trace validation) | "all" (emission of behaviours)
           EmitHist
 VARIABLES arrs, wraps, fields, ver, nops, hist
@@ -40,7 +41,8 @@ Pick(S) == CHOOSE x \in S : \A y \in S : x <= y
 BufOfWrap(x) == arrs[wraps[x].arr].buf
 BufOfField(f) == BufOfWrap(fields[f].wrap)
 
-ConsArrKinds == {"Field", "from_raw", "makeField", "mf_from_raw", "mf_from_dict"}
+ConsArrKinds == {"Field", "from_raw", "makeField", "mf_from_raw", "mf_from_dict", "PS_field"}   \* PS_field: the array a user callable returns
+NewKinds == {"own", "subclass", "memmap"}     \* plain ndarray, an ndarray subclass, a memory-mapped file: the rule does not depend on the flavour
 ConsWrapKinds == {"Field", "from_raw"}
 ViewArrKinds == {"slice", "reshape", "real"}
 ViewWrapKinds == {"getitem", "view", "real"}
@@ -61,9 +63,9 @@ Ev(a, k, x, r, landed) == [a |-> a, k |-> k, x |-> x, r |-> r, landed |-> landed
 \* No other array object that looks at buffer b is writable (the only alias C07 does not promise anything about)
 NoOtherWritableAlias(a) == AllowEarlierViews \/ \A b \in UsedArr : (b # a /\ arrs[b].buf = arrs[a].buf) => ~arrs[b].w
 
-NewArray == /\ FreeArr # {} /\ NewBuf <= MaxArr
+NewArray(k) == /\ FreeArr # {} /\ NewBuf <= MaxArr
             /\ arrs' = [arrs EXCEPT ![Pick(FreeArr)] = [buf |-> NewBuf, w |-> TRUE]]
-            /\ Log(Ev("NewArray", "own", 0, Pick(FreeArr), FALSE))
+            /\ Log(Ev("NewArray", k, 0, Pick(FreeArr), FALSE))
             /\ UNCHANGED <<wraps, fields, ver>>
 \* NumPy view of an array object: shares the buffer, inherits the flag at creation time
 ViewOfArr(a, k) == /\ a \in UsedArr /\ FreeArr # {}
@@ -152,7 +154,7 @@ WriteWrapOut(x, how) == /\ x \in UsedWrap
 UseField(f, k) == /\ f \in UsedField /\ Log(Ev("UseField", k, f, 0, FALSE)) /\ UNCHANGED <<arrs, wraps, fields, ver>>
 UseOp(f, k) == /\ f \in UsedField /\ Log(Ev("UseOp", k, f, 0, FALSE)) /\ UNCHANGED <<arrs, wraps, fields, ver>>
 
-Next == \/ NewArray
+Next == \/ \E k \in Flavours : NewArray(k)
         \/ \E a \in ArrIds : \/ \E k \in ViewArrKinds : ViewOfArr(a, k)
                              \/ WrapArr(a)
                              \/ \E k \in ConsArrKinds : ConstructFromArr(a, k)
